@@ -132,6 +132,11 @@ func buildWorld(c *core.Ctx, base int64, tightWindows bool) *world {
 		u := gen.DrawURL(c, "bundle.url", i, false, "")
 		r := gen.DrawResp(c, "bundle.resp", i)
 		r.DirectMap = false
+		if lb.Version == "b1" && c.Chance("bundle.loneVariants", 1, 8) {
+			// a single representation that nevertheless states its content negotiation
+			r.Headers = append(r.Headers, gen.HV{Name: "Variants", Value: "Accept-Language;en;fr"}, gen.HV{Name: "Variant-Key", Value: "en"})
+			c.Probe("covered response carrying a Variants header")
+		}
 		if c.Chance("bundle.preDigest", 1, 10) {
 			// the origin server already sent a Digest of another algorithm (RFC 3230)
 			r.Headers = append(r.Headers, gen.HV{Name: "Digest", Value: "sha-256=X48E9qOokqqrvdts8nOJRJN3OWDUoyWxBf7kbu9DBPE="})
@@ -1116,4 +1121,47 @@ func (w *world) signStep(b *bundle.Bundle, s signerSpec, i int) error {
 	signer.Algorithm, _ = verifhook.SigningAlgorithmForPrivateKey(s.leaf.Key, fixtures.ConstReader{B: s.entropy})
 	w.recordVouched(b, signer, s, i)
 	return addSignature(b, signer, s.rs)
+}
+
+// TestScale: one covered resource of 16 MiB and a little more (a download-sized
+// body): signed, verified in memory and after write / re-read - the verified
+// payload is the whole body - and then with the last byte of the stored body
+// flipped, which must be noticed. Few runs, each large.
+func TestScale(t *testing.T) {
+	rapid.Check(t, func(t *rapid.T) {
+		core.Run(t, "bsig/scale", func(c *core.Ctx) {
+			w := &world{c: c, vouched: map[string]vouched{}}
+			leaf := fixtures.ByName(c.PickStr("scale.leaf", "a-p256", "b-p384"))
+			u := "https://" + leaf.Hosts[0] + "/big"
+			n := c.PickInt("scale.len", 1<<24+4096, 1<<24+1, 1<<24, 1<<20+1)
+			body := make([]byte, n)
+			core.FillPattern(body, c.U64("scale.pat", 0, ^uint64(0)))
+			lb := &gen.LBundle{Order: map[string][]int{u: {0}}, Version: c.PickStr("bundle.version", "b1", "b2"), Primary: u}
+			lb.Exchanges = []gen.LExchange{{URL: u, Resp: gen.LResp{Status: 200, Headers: []gen.HV{{Name: "Content-Type", Value: "application/octet-stream"}}, Body: body}}}
+			w.lb = lb
+			w.signers = []signerSpec{{leaf: leaf, date: 1650000000, duration: 3600, rs: 16384, chainLen: 2, entropy: byte(c.Int("signer.entropy", 0, 255))}}
+			if err := w.sign(false); err != nil {
+				if c.Oracle("C06") {
+					c.Violation("sign-error", "signers", "%v", err)
+				}
+				return
+			}
+			tm := time.Unix(1650000010, 0)
+			w.client(w.b, tm, "large body, in memory", true)
+			rb, rerr := readBundle(c, w.file, core.ReaderPlan{ErrAt: -1})
+			if rerr != nil {
+				if c.Oracle("C06") {
+					c.Violation("read-error", "bundle.Read", "signed bundle rejected: %v", rerr)
+				}
+				return
+			}
+			w.client(rb, tm, "large body, after write/read", true)
+			eb := rb.Exchanges[0].Response.Body
+			eb[len(eb)-1-c.Int("scale.flipBack", 0, 50)] ^= 0x10
+			c.Fault("storage-bitflip-in-last-record")
+			w.client(rb, tm, "bit flip near the end of a large body", false)
+			c.Outcome("nt:ok")
+			c.Sig("scale/%s/%d", lb.Version, n)
+		})
+	})
 }
